@@ -49,6 +49,8 @@ def build():
         if not os.path.exists(lockfile):
             shutil.copy("/repo/Cargo.lock", lockfile)
         env = dict(os.environ, CARGO_NET_OFFLINE="true")
+        env.pop("CARGO_TARGET_DIR", None)      # the harness always builds into harness/target (see .cargo/config.toml)
+        env.pop("RUSTFLAGS", None)
         t0 = time.time()
         p = subprocess.run(["cargo", "build", "--offline", "--quiet"], cwd=HARNESS_DIR, env=env,
                            stdout=subprocess.PIPE, stderr=subprocess.STDOUT, text=True)
